@@ -31,7 +31,9 @@ SPEC = {
              "identity-like JSON key any struct of the server can decode (regenerated from the struct tags, Gen.c11.identityKeys; "
              "the driver rejects a stale key list) to the body with a foreign client id; `dig` = digest of every payload pushed to "
              "any connection and of every stored record created/changed (all fields; random ids, secrets and times removed), "
-             "required equal between the two runs; schedules: cases marked `z <j>` hold the handler (gated storage double) until the "
+             "required equal between the two runs; concurrency: cases marked `y <j> <rounds>` send the same read-only command from two "
+             "connections at once (12 goroutines each, up to 60 000 / 200 000 rounds) and judge every answer of both against the asking "
+             "connection's own client (stress search, probabilistic); schedules: cases marked `z <j>` hold the handler (gated storage double) until the "
              "executor's RPC wait — shortened through RPCManager.SetTimeout — has timed out and a second command from connection j is "
              "in flight, then let it resume; read faults: cases marked `q <plan>` run over a fault-injecting wrapper of the real "
              "in-memory storage in which the i-th read of the named mapping's main record during the command fails transiently iff "
